@@ -31,7 +31,7 @@ structure WrapInv (P : Prog) (s : State) : Prop where
 
 theorem otherRel_chain {s : State} {k : Nat} {a b : Th} (h : OtherRel s k a b) (h0 : a.status = .notCreated → a.chain = []) :
     b.chain = a.chain := by
-  rcases h with rfl | rfl | ⟨hs, _, rfl⟩ | ⟨_, rfl⟩
+  rcases h with rfl | rfl | ⟨hs, _, _, rfl⟩ | ⟨_, rfl⟩
   · rfl
   · rfl
   · simp [h0 hs]
@@ -158,7 +158,7 @@ theorem wrapInv_thr (P : Prog) (hm0 : P.managed 0 = false) (s s' : State) (t : N
       omega
     · by_cases hkt : k = t
       · subst hkt; rw [exec_named P s s' k i rest he, hn] at hk; cases hk
-      · rcases oth k hkt with h1 | h1 | ⟨_, _, h1⟩ | ⟨h0, h1⟩
+      · rcases oth k hkt with h1 | h1 | ⟨_, _, _, h1⟩ | ⟨h0, h1⟩
         · rw [h1] at hk ⊢; exact hi.nm k hk
         · rw [h1] at hk ⊢; exact hi.nm k hk
         · rw [h1]
